@@ -164,6 +164,13 @@ def build(ch):
         add(fresh_name(b'ld'), (I32,), (I64,), [('local.get', 0), ('i64.load', 0, 0)])
         acc['st'] = len([e for e in m.exports if e[1] == 'func'])
         add(fresh_name(b'st'), (I32, I64), (), [('local.get', 0), ('local.get', 1), ('i64.store', 0, 0)])
+        passive = [k for k, d_ in enumerate(m.datas) if d_[0] == 'passive' and len(d_[2]) > 0]
+        acc['pinit'], acc['pdrop'] = [], []
+        for k in passive[:2]:
+            acc['pinit'].append((k, len(m.datas[k][2]), len([e for e in m.exports if e[1] == 'func'])))
+            add(fresh_name(b'pinit'), (I32, I32, I32), (), [('local.get', 0), ('local.get', 1), ('local.get', 2), ('memory.init', k)])
+            acc['pdrop'].append((k, len([e for e in m.exports if e[1] == 'func'])))
+            add(fresh_name(b'pdrop'), (), (), [('data.drop', k)])
         mname = ch.pick((b'mem', b'mem', b'memory', b'm-e.m'))
         while mname in names:
             mname += b'_'
@@ -320,6 +327,16 @@ def make_inst(ch, params):
                 script.append(('call', 1, acc['st'], [ch.pick((0, 8, 100, 4000)), ch.bits(64)]))
         observe(script, 0, m, acc, info)
         observe(script, 1, m, acc, info)
+        if acc.get('pinit'):
+            # passive segments belong to an instance: one instance dropping a segment (data.drop) leaves the other's copy as it was
+            cls['data_drop_in_one_of_two_instances'] = 1
+            (k, ln, e_init), (k2, e_drop) = acc['pinit'][0], acc['pdrop'][0]
+            script.append(('call', 0, e_init, [2000, 0, ln]))
+            script.append(('call', 0, e_drop, []))
+            script.append(('call', 1, e_init, [2100, 0, ln]))
+            script.append(('call', 1, e_init, [2200, ln - 1, 1]))
+            script.append(('dump', 1, 2096, 32 + ln))
+            script.append(('dump', 0, 1996, 16 + ln))
     else:
         observe(script, 0, m, acc, info)
     if 'shared_memory' not in cls and ch.below(3) == 0:
